@@ -328,29 +328,79 @@ func (m *mrCtx) minMaxReduction(s *ast.IfStmt) bool {
 	if x == nil || v == nil {
 		return false
 	}
-	ordered, okOps, mx, mv := false, true, false, false
-	ast.Inspect(s.Cond, func(n ast.Node) bool {
-		switch e := n.(type) {
-		case *ast.BinaryExpr:
-			switch e.Op {
-			case token.LSS, token.GTR:
-				ordered = true
-			case token.LEQ, token.GEQ, token.EQL, token.LAND, token.LOR:
-			default:
-				okOps = false
-			}
-		case *ast.Ident:
-			if o := m.pkg.TypesInfo.Uses[e]; o == x {
-				mx = true
-			} else if o == v {
-				mv = true
-			}
-		case *ast.CallExpr, *ast.UnaryExpr:
-			okOps = false
+	// the condition must be a lexicographic strict order:  a1<b1 || a1==b1 && a2<b2 || ...
+	// (an arbitrary mix of comparisons is not transitive, and then the result depends on iteration order)
+	var ors []ast.Expr
+	var flatOr func(e ast.Expr)
+	flatOr = func(e ast.Expr) {
+		e = stripParens(e)
+		if be, ok := e.(*ast.BinaryExpr); ok && be.Op == token.LOR {
+			flatOr(be.X)
+			flatOr(be.Y)
+			return
 		}
-		return true
-	})
-	return ordered && okOps && mx && mv
+		ors = append(ors, e)
+	}
+	flatOr(s.Cond)
+	var flatAnd func(e ast.Expr, out *[]ast.Expr)
+	flatAnd = func(e ast.Expr, out *[]ast.Expr) {
+		e = stripParens(e)
+		if be, ok := e.(*ast.BinaryExpr); ok && be.Op == token.LAND {
+			flatAnd(be.X, out)
+			flatAnd(be.Y, out)
+			return
+		}
+		*out = append(*out, e)
+	}
+	mentions := func(e ast.Expr, o types.Object) bool {
+		found := false
+		ast.Inspect(e, func(n ast.Node) bool {
+			if id, ok := n.(*ast.Ident); ok && m.pkg.TypesInfo.Uses[id] == o {
+				found = true
+			}
+			return true
+		})
+		return found
+	}
+	var keysL, keysR []string // earlier strict comparisons' operands
+	var dir token.Token
+	for k, term := range ors {
+		var ands []ast.Expr
+		flatAnd(term, &ands)
+		if len(ands) != k+1 {
+			return false
+		}
+		for i, a := range ands {
+			be, ok := a.(*ast.BinaryExpr)
+			if !ok {
+				return false
+			}
+			l, r := types.ExprString(be.X), types.ExprString(be.Y)
+			if i < k {
+				if be.Op != token.EQL || l != keysL[i] || r != keysR[i] {
+					return false
+				}
+				continue
+			}
+			if be.Op != token.LSS && be.Op != token.GTR {
+				return false
+			}
+			if k == 0 {
+				dir = be.Op
+			} else if be.Op != dir {
+				return false
+			}
+			// one side is about the loop value, the other about the accumulator
+			if !(mentions(be.X, v) && mentions(be.Y, x) || mentions(be.X, x) && mentions(be.Y, v)) {
+				return false
+			}
+			if k > 0 && (mentions(be.X, v) != mentions(stripParens(ors[0]).(*ast.BinaryExpr).X, v)) && len(ands) == 1 {
+				return false
+			}
+			keysL, keysR = append(keysL, l), append(keysR, r)
+		}
+	}
+	return len(ors) > 0
 }
 
 func isIdent(e ast.Expr, name string) bool {
